@@ -273,6 +273,9 @@ func ruleC04(w *World, r *Report) {
 	ruleC04Startup(w, r, info)
 	ruleC04AppFilterEmpty(w, r)
 	ruleC04PartialDelete(w, r)
+	ruleC04AppIDPerPDR(w, r, "C04", "R04.12")
+	// R04.13: a reconnect does not clear a switch that holds live sessions (C15 R15.5 re-filed)
+	r.withRule("R04.13", func() { ruleC15Ownership(w, r) })
 }
 
 // ruleC04AppSide: the application address/port come from the destination side for access
@@ -1191,4 +1194,153 @@ func ruleC04PartialDelete(w *World, r *Report) {
 		r.check(knowsRest, "R04.11", w.FuncName(mod), "a partial delete tells the datapath which rules of the session remain", w.Pos(c.Pos()), "one argument is the session's remaining rule set", "the delete issued for Remove PDR hands the UP4 plug-in only the removed rules: sendDelete deletes the sessions_uplink / sessions_downlink entry of the removed PDR although other PDRs of the same direction still use it (its key has no PDR ID) — after an accepted Remove PDR of one of two uplink PDRs the session's remaining uplink PDR matches no packet any more")
 	}
 	r.floor("R04.11 deletes issued by the modification handler", n, 1)
+}
+
+// ruleC04AppIDPerPDR (R04.12, re-filed as R17.8): the application ID a PDR's terminations entry is filed
+// under is decided for that PDR — the default 0, or the ID obtained for its own filter in the same loop
+// iteration. A variable that lives across iterations hands the previous PDR's application ID to a PDR
+// without a filter: the default PDR is written under another PDR's key (ALREADY_EXISTS on INSERT, ignored)
+// and matches only that application's ports.
+func ruleC04AppIDPerPDR(w *World, r *Report, prop, rule string) {
+	mod := w.Fn(prop, "pfcpiface.(*UP4).modifyUP4ForwardingConfiguration")
+	build := w.Fn(prop, "pfcpiface.(*P4rtTranslator).BuildTerminationsTableEntry")
+	idx := -1
+	for i, p := range build.Params {
+		if p.Name() == "internalAppID" {
+			idx = i
+		}
+	}
+	if idx < 0 {
+		r.bad(rule, w.FuncName(build), "BuildTerminationsTableEntry takes the application ID as parameter internalAppID", w.Pos(build.Pos()), "no such parameter")
+		return
+	}
+	n := 0
+	for _, c := range callsTo(mod, build) {
+		call := c.(*ssa.Call)
+		n++
+		// the loop over PDRs that contains the call
+		var hdr *ssa.BasicBlock
+		for _, b := range mod.Blocks {
+			if b.Dominates(call.Block()) && reachesBlock(call.Block(), b) && b != call.Block() {
+				// innermost dominating block that is part of a cycle with the call and has a φ or a range test
+				if blockIf(b) != nil && (hdr == nil || hdr.Dominates(b)) {
+					isHdr := false
+					for _, p := range b.Preds {
+						if b.Dominates(p) {
+							isHdr = true
+						}
+					}
+					if isHdr {
+						hdr = b
+					}
+				}
+			}
+		}
+		carried := ""
+		seen := map[ssa.Value]bool{}
+		var walk func(v ssa.Value, d int)
+		walk = func(v ssa.Value, d int) {
+			if d > 8 || seen[v] || v == nil {
+				return
+			}
+			seen[v] = true
+			phi, ok := v.(*ssa.Phi)
+			if !ok {
+				return
+			}
+			if hdr != nil && phi.Block() == hdr {
+				for k, e := range phi.Edges {
+					if hdr.Dominates(hdr.Preds[k]) { // back edge
+						if _, isK := constInt(e); !isK {
+							carried = symOf(e).String()
+						}
+					}
+				}
+				return
+			}
+			for _, e := range phi.Edges {
+				walk(e, d+1)
+			}
+		}
+		walk(call.Call.Args[idx], 0)
+		// once the ID of the PDR's own filter was obtained (add: on the success edge; remove: always), no way
+		// to the builder may still carry the default: the terminations key is (…, app_id) whether or not an
+		// applications entry is written along with it
+		if phi, ok := call.Call.Args[idx].(*ssa.Phi); ok {
+			for _, name := range []string{"addInternalApplicationIDAndGetP4rtEntry", "removeInternalApplicationIDAndGetP4rtEntry"} {
+				g := w.Fn(prop, "pfcpiface.(*UP4)."+name)
+				for _, ac := range callsTo(mod, g) {
+					ab := ac.(*ssa.Call).Block()
+					var from []*ssa.BasicBlock
+					if name[0] == 'a' {
+						// success edge of the add
+						errV := extractOf(ac.(*ssa.Call), 2)
+						for _, b := range mod.Blocks {
+							for _, sc := range b.Succs {
+								if errV != nil && nilnessEdge(b, sc, func(x ssa.Value) bool { return x == errV }, true) {
+									from = append(from, sc)
+								}
+							}
+						}
+					} else {
+						from = []*ssa.BasicBlock{ab}
+					}
+					var leaf func(v ssa.Value, via *ssa.BasicBlock, d int) bool
+					leaf = func(v ssa.Value, via *ssa.BasicBlock, d int) bool {
+						if d > 6 {
+							return false
+						}
+						if p2, ok := v.(*ssa.Phi); ok {
+							for k, e := range p2.Edges {
+								pred := p2.Block().Preds[k]
+								for _, fb := range from {
+									if pred == fb || (fb.Dominates(pred) && reachesBlock(fb, pred)) || reachesBlockNoHeader(fb, pred, hdr) {
+										if leaf(e, pred, d+1) {
+											return true
+										}
+									}
+								}
+							}
+							return false
+						}
+						_, isK := constInt(v)
+						return isK && via != nil
+					}
+					if leaf(phi, nil, 0) {
+						r.bad(rule, w.FuncName(mod), "the terminations entry is filed under the ID "+name+" returned", w.Pos(call.Pos()), "after "+name+" returned the application ID of the PDR's filter, a path to BuildTerminationsTableEntry still passes the default ID 0: the terminations entry is addressed under the wrong key (on DELETE: NOT_FOUND, tolerated — the real entry stays after the session is gone)")
+					}
+				}
+			}
+		}
+		r.check(hdr != nil && carried == "", rule, w.FuncName(mod), "the application ID of a terminations entry is decided within the PDR's own iteration", w.Pos(call.Pos()), "no loop-carried value", "the application ID passed for a PDR can be the value left by the previous PDR of the request ("+carried+"): a PDR without a filter that follows a filtered PDR is written under that PDR's application ID instead of 0")
+	}
+	r.floor(rule+" terminations entries built in the PDR loop", n, 1)
+}
+
+
+// reachesBlockNoHeader: b is reachable from a without passing the loop header hdr.
+func reachesBlockNoHeader(a, b, hdr *ssa.BasicBlock) bool {
+	seen := map[*ssa.BasicBlock]bool{}
+	var dfs func(x *ssa.BasicBlock) bool
+	dfs = func(x *ssa.BasicBlock) bool {
+		if x == b {
+			return true
+		}
+		if seen[x] || x == hdr {
+			return false
+		}
+		seen[x] = true
+		for _, s := range x.Succs {
+			if dfs(s) {
+				return true
+			}
+		}
+		return false
+	}
+	for _, s := range a.Succs {
+		if dfs(s) {
+			return true
+		}
+	}
+	return false
 }
